@@ -410,7 +410,28 @@ fn replay(env: &Env, case: &Value) {
         o => o.clone(),
     };
     match strats.iter().find(|x| canon(x) == canon(&s)) {
-        Some(found) => run_topology(env, &c, &absent, 0, &p, Some((found, tok))),
+        Some(found) => {
+            // observation trace: what the driver answers on each locator
+            if let Ok(cl) = build_clusters(&c, &ring, &strats, p.sparse_variants) {
+                let strategy = topo::to_driver_strategy(found);
+                let mut locs: Vec<(&str, &ClusterState)> = vec![("on-the-fly", &cl.otf), ("precomputed", &cl.pre)];
+                for sp in &cl.sparse {
+                    locs.push(("sparse-precomputed", sp));
+                }
+                let mut dcs: Vec<Option<String>> = vec![None];
+                dcs.extend(ring.datacenters().into_iter().map(Some));
+                for (name, st) in locs {
+                    for dc in &dcs {
+                        let got = catch(AssertUnwindSafe(|| {
+                            let f = || st.replica_locator().replicas_for_token(Token::new(tok), &strategy, dc.as_deref(), &TABLE);
+                            (f().len(), f().into_iter().map(|(n, _)| idx(n)).collect::<Vec<_>>(), f().into_replicas_ordered().into_iter().map(|(n, _)| idx(n)).collect::<Vec<_>>())
+                        }));
+                        println!("replay: [{name}] restricted to {dc:?}: (len, iteration, ring-ordered view) = {got:?}");
+                    }
+                }
+            }
+            run_topology(env, &c, &absent, 0, &p, Some((found, tok)))
+        }
         None => vcore::machinery_error("replay: strategy is not in the enumerated family for this cluster"),
     }
 }
@@ -511,6 +532,16 @@ fn main() {
             let names = &SPELLINGS[sp];
             let c = t.concrete(names);
             run_topology(env_ref, &c, names.absent_dc, i as u64, &p, None);
+            // small rings again with one more peer that owns no token (known node, not on the ring):
+            // once in an existing datacenter, once in a datacenter of its own (which must then not become a ring DC)
+            if t.slots() <= (if thorough { 3 } else { 2 }) && sp == 0 {
+                for (k, dc) in [names.dcs[0], "dc-of-the-tokenless-node"].into_iter().enumerate() {
+                    let mut c2 = c.clone();
+                    c2.nodes.push(topo::CNode { dc: Some(dc.to_string()), rack: Some(names.racks[0].to_string()), tokens: vec![] });
+                    run_topology(env_ref, &c2, names.absent_dc, (n_topos * (k + 1) + i) as u64, &p, None);
+                    env_ref.r.counters.add("topologies_with_a_peer_that_owns_no_token", 1);
+                }
+            }
         }
     });
     sink.flush(&r);
